@@ -138,3 +138,54 @@ Print Assumptions C20_store_invariant.
 Theorem C20_api_configs_ok : forall a b c d e f t, cfg_ok (config_of a b c d e f t).
 Proof. exact config_of_ok. Qed.
 Print Assumptions C20_api_configs_ok.
+
+Theorem C20_extended_rcode_is_misc_error : forall cfg m v, 16 <= opt_rcode m ->
+  class_cap cfg m = Ok (N.min (c_maxv cfg) (c_misc cfg)) /\
+  (validity cfg (RMsg m) = Ok v -> v <= c_misc cfg).
+Proof. exact extended_rcode_both. Qed.
+Print Assumptions C20_extended_rcode_is_misc_error.
+
+Theorem C20_opt_record_makes_rcode_extended : forall m o,
+  first_opt (m_ar m) = Some o -> r_bad o = false -> 2 ^ 24 <= r_ttl o -> 16 <= opt_rcode m.
+Proof. exact opt_rcode_high. Qed.
+Print Assumptions C20_opt_record_makes_rcode_extended.
+
+Theorem C20_same_cd_compatible_do : forall cfg evs st os ev k now qc st' r,
+  request_of ev = Some (k, now, qc) ->
+  run cfg state_init evs = Ok (st, os) ->
+  step cfg st ev = Ok (st', OServed r) ->
+  exists k0 t0 u0, logged evs os (k0, t0, u0) /\ same_question k0 k /\ derives u0 r /\
+    k_cd k0 = k_cd k /\ (k_addo k = AdDo_Do -> k_addo k0 = AdDo_Do).
+Proof. exact same_cd_compatible_do. Qed.
+Print Assumptions C20_same_cd_compatible_do.
+
+Theorem C20_key_holds_every_request_component : forall name cls ty rd cd ad dnssec_ok,
+  let k := key_of_request name cls ty rd cd ad dnssec_ok in
+  k_name k = name /\ k_class k = cls /\ k_type k = ty /\ k_cd k = cd /\ k_rd k = rd /\
+  k_addo k = (if dnssec_ok then AdDo_Do else if ad then AdDo_Ad else AdDo_None).
+Proof. exact key_of_request_fields. Qed.
+Print Assumptions C20_key_holds_every_request_component.
+
+Theorem C20_base_message_opt_ignored : forall name cls ty rd cd ad b b' own,
+  key_of_request_msg name cls ty rd cd ad b own = key_of_request_msg name cls ty rd cd ad b' own /\
+  (own = None -> k_addo (key_of_request_msg name cls ty rd cd ad b own) <> AdDo_Do).
+Proof. exact base_opt_ignored. Qed.
+Print Assumptions C20_base_message_opt_ignored.
+
+Theorem C20_interleaved_cascade_safe : forall cfg,
+  (forall st k v, inv cfg st -> cget k (s_cache st) = Some v -> prov cfg (s_log st) k v) /\
+  (forall L L' k v, incl L L' -> prov cfg L k v -> prov cfg L' k v) /\
+  (forall L k v v', k_addo k = AdDo_None -> prov cfg L (key_set_addo k AdDo_Ad) v ->
+     update_message cfg v m_ad (pure (msg_set_ad false)) = Ok v' -> prov cfg L k v') /\
+  (forall L k v v', k_addo k <> AdDo_Do -> is_dnssec (k_type k) = false ->
+     prov cfg L (key_set_addo k AdDo_Do) v ->
+     update_message cfg v (fun _ => true) (remove_dnssec_o (addo_ad (k_addo k))) = Ok v' -> prov cfg L k v') /\
+  (forall L k v v', k_rd k = false -> prov cfg L (key_set_rd k true) v ->
+     update_message cfg v (fun _ => true) (pure (msg_set_rd false)) = Ok v' -> prov cfg L k v') /\
+  (forall st k v c', inv cfg st -> prov cfg (s_log st) k v ->
+     cache_insert cfg k v (s_cache st) = Ok c' -> inv cfg (mkState c' (s_log st))) /\
+  (forall L k v now qc r, prov cfg L k v -> get_response v now qc = Some (Ok r) ->
+     exists k0 t0 u0, In (k0, t0, u0) L /\ same_question k0 k /\ flags_compatible k0 k /\ derives u0 r /\
+       v_created v = t0 /\ now - t0 <= v_valid v * 1000).
+Proof. exact interleaved_cascade_safe. Qed.
+Print Assumptions C20_interleaved_cascade_safe.
